@@ -173,5 +173,166 @@ pub fn vx_apid_from_text(t: &VxText) -> (r: VxChar4Result) ensures r.v == spec_p
 //@|    broadcast use axiom_pseudo_injective, axiom_pseudo_truncated;
 //@ end
 
+// ---------- apid_ctid_anon as a whole: which maps are used, what is written back ----------
+impl DltMessage {
+//@ extract src/dlt/mod.rs DltMessage::apid
+//@   spec
+//@|    ensures r == (match self.extended_header { Some(e) => Some(&e.apid), None => None::<&DltChar4> }),
+//@ end
+//@ extract src/dlt/mod.rs DltMessage::ctid
+//@   spec
+//@|    ensures r == (match self.extended_header { Some(e) => Some(&e.ctid), None => None::<&DltChar4> }),
+//@ end
+}
+// R12: the concrete map types of the plugin. ctid_map: HashMap<DltChar4, DltChar4>
+#[verifier::external_body]
+pub struct VxCtidMapC { _p: u8 }
+impl VxCtidMapC {
+    pub uninterp spec fn m(&self) -> Map<DltChar4, DltChar4>;
+    #[verifier::external_body]
+    pub fn new() -> (r: VxCtidMapC) ensures r.m() == Map::<DltChar4, DltChar4>::empty() { unimplemented!() }
+    #[verifier::external_body]
+    pub fn contains_key(&self, k: &DltChar4) -> (r: bool) ensures r == self.m().dom().contains(*k) { unimplemented!() }
+    #[verifier::external_body]
+    pub fn get(&self, k: &DltChar4) -> (r: Option<&DltChar4>) ensures r is Some <==> self.m().dom().contains(*k), r is Some ==> *r->Some_0 == self.m()[*k] { unimplemented!() }
+    #[verifier::external_body]
+    pub fn len(&self) -> (r: usize) requires self.m().dom().finite(), ensures r == self.m().dom().len() { unimplemented!() }
+    #[verifier::external_body]
+    pub fn insert(&mut self, k: DltChar4, v: DltChar4) ensures final(self).m() == old(self).m().insert(k, v) { unimplemented!() }
+}
+//@ extract src/plugins/anonymize.rs struct ApidData
+//@   sub R12 `HashMap<DltChar4, DltChar4>` => `VxCtidMapC`
+//@ end
+// the abstract value of an ApidData: (pseudonym of the APID, CTID -> pseudonym)
+pub type ApidV = (DltChar4, Map<DltChar4, DltChar4>);
+pub open spec fn dv(d: ApidData) -> ApidV { (d.apid, d.ctid_map.m()) }
+// HashMap<DltChar4, ApidData> (one per ECU)
+#[verifier::external_body]
+pub struct VxApidMapC { _p: u8 }
+impl VxApidMapC {
+    pub uninterp spec fn m(&self) -> Map<DltChar4, ApidV>;
+    #[verifier::external_body]
+    pub fn contains_key(&self, k: &DltChar4) -> (r: bool) ensures r == self.m().dom().contains(*k) { unimplemented!() }
+    #[verifier::external_body]
+    pub fn len(&self) -> (r: usize) requires self.m().dom().finite(), ensures r == self.m().dom().len() { unimplemented!() }
+    #[verifier::external_body]
+    pub fn insert(&mut self, k: DltChar4, v: ApidData) ensures final(self).m() == old(self).m().insert(k, dv(v)) { unimplemented!() }
+    #[verifier::external_body]
+    pub fn get_mut(&mut self, k: &DltChar4) -> (r: Option<&mut ApidData>)
+        ensures
+            r is Some <==> old(self).m().dom().contains(*k),
+            r is Some ==> dv(*r->Some_0) == old(self).m()[*k] && final(self).m() == old(self).m().insert(*k, dv(*final(r->Some_0))),
+            r is None ==> final(self).m() == old(self).m(),
+    { unimplemented!() }
+}
+// HashMap<DltChar4, HashMap<DltChar4, ApidData>> (`apid_maps`): `.entry(ecu).or_default()`
+#[verifier::external_body]
+pub struct VxApidMaps { _p: u8 }
+impl VxApidMaps {
+    pub uninterp spec fn m(&self) -> Map<DltChar4, Map<DltChar4, ApidV>>;
+    #[verifier::external_body]
+    pub fn vx_entry_or_default(&mut self, k: DltChar4) -> (r: &mut VxApidMapC)
+        ensures
+            r.m() == (if old(self).m().dom().contains(k) { old(self).m()[k] } else { Map::<DltChar4, ApidV>::empty() }),
+            final(self).m() == old(self).m().insert(k, final(r).m()),
+    { unimplemented!() }
+}
+pub struct VxAnon { pub apid_maps: VxApidMaps }
+// numbering well-formedness of one pseudonym map (prefix 'A' resp. 'C'), as for the ECU map above
+pub open spec fn pm_wf(prefix: u8, m: Map<DltChar4, DltChar4>) -> bool {
+    &&& m.dom().finite()
+    &&& forall|k: DltChar4| m.dom().contains(k) ==> exists|i: int| 1 <= i <= m.dom().len() && #[trigger] spec_pseudo(prefix, i) == m[k]
+}
+pub open spec fn apid_proj(am: Map<DltChar4, ApidV>) -> Map<DltChar4, DltChar4> { Map::new(am.dom(), |k: DltChar4| am[k].0) }
+pub open spec fn ecu_wf(am: Map<DltChar4, ApidV>) -> bool {
+    &&& am.dom().finite() && pm_wf(0x41, apid_proj(am))
+    &&& forall|a: DltChar4| am.dom().contains(a) ==> pm_wf(0x43, #[trigger] am[a].1)
+}
+// at most 2^32 different ids exist (ASSUMED as a bound on the map sizes, as in the statement-wise contracts above)
+pub open spec fn maps_small(mm: Map<DltChar4, Map<DltChar4, ApidV>>) -> bool {
+    forall|e: DltChar4| mm.dom().contains(e) ==> (#[trigger] mm[e]).dom().len() < 0x1_0000_0000 && forall|a: DltChar4| mm[e].dom().contains(a) ==> (#[trigger] mm[e][a]).1.dom().len() < 0x1_0000_0000
+}
+pub proof fn lemma_pm_insert(prefix: u8, m: Map<DltChar4, DltChar4>, k: DltChar4)
+    requires pm_wf(prefix, m), !m.dom().contains(k),
+    ensures pm_wf(prefix, m.insert(k, spec_pseudo(prefix, (m.dom().len() + 1) as int))),
+{
+    let m2 = m.insert(k, spec_pseudo(prefix, (m.dom().len() + 1) as int));
+    assert(m2.dom() =~= m.dom().insert(k));
+    assert(m2.dom().len() == (m.dom().len() + 1) as int);
+    assert forall|q: DltChar4| m2.dom().contains(q) implies exists|i: int| 1 <= i <= m2.dom().len() && #[trigger] spec_pseudo(prefix, i) == m2[q] by {
+        if q == k { assert(spec_pseudo(prefix, (m.dom().len() + 1) as int) == m2[q]); }
+        else { let i = choose|i: int| 1 <= i <= m.dom().len() && #[trigger] spec_pseudo(prefix, i) == m[q]; assert(spec_pseudo(prefix, i) == m2[q]); }
+    }
+}
+pub proof fn lemma_ecu_wf_empty()
+    ensures ecu_wf(Map::<DltChar4, ApidV>::empty()),
+{
+    assert(apid_proj(Map::<DltChar4, ApidV>::empty()).dom() =~= Set::<DltChar4>::empty());
+}
+pub open spec fn maps_wf(mm: Map<DltChar4, Map<DltChar4, ApidV>>) -> bool { forall|e: DltChar4| mm.dom().contains(e) ==> ecu_wf(#[trigger] mm[e]) }
+// a pseudonym once given never changes (APID and CTID pseudonyms of every ECU)
+pub open spec fn maps_stable(m0: Map<DltChar4, Map<DltChar4, ApidV>>, m1: Map<DltChar4, Map<DltChar4, ApidV>>) -> bool {
+    forall|e: DltChar4, a: DltChar4| m0.dom().contains(e) && #[trigger] m0[e].dom().contains(a) ==> m1.dom().contains(e) && m1[e].dom().contains(a) && m1[e][a].0 == m0[e][a].0
+        && forall|c: DltChar4| #[trigger] m0[e][a].1.dom().contains(c) ==> m1[e][a].1.dom().contains(c) && m1[e][a].1[c] == m0[e][a].1[c]
+}
+// everything of the message but the two ids in its extended header
+pub open spec fn same_but_ids(a: DltMessage, b: DltMessage) -> bool {
+    a.index == b.index && a.reception_time_us == b.reception_time_us && a.timestamp_dms == b.timestamp_dms && a.standard_header == b.standard_header && a.ecu == b.ecu
+        && a.payload == b.payload && a.payload_text == b.payload_text && a.lifecycle == b.lifecycle
+        && (a.extended_header is Some <==> b.extended_header is Some)
+        && (a.extended_header is Some ==> a.extended_header->Some_0.verb_mstp_mtin == b.extended_header->Some_0.verb_mstp_mtin && a.extended_header->Some_0.noar == b.extended_header->Some_0.noar)
+}
+//@ extract src/plugins/anonymize.rs AnonymizePlugin::apid_ctid_anon
+//@   rename apid_ctid_anon_whole
+//@   rules R1 R2 R3 R4 R5
+//@   sub R12 `fn apid_ctid_anon(&mut self, msg: &mut DltMessage)` => `fn apid_ctid_anon(vx_self: &mut VxAnon, msg: &mut DltMessage)`
+//@   sub R12 `self` => `vx_self` *
+//@   sub R12 `.entry(__).or_default()` => `.vx_entry_or_default($1)`
+//@   sub R11 `DltChar4::from_str(format!("A{:03}",` => `vx_apid_from_text(vx_fmt_a03(` ?
+//@   sub R11 `DltChar4::from_str(format!("C{:03}",` => `vx_ctid_from_text(vx_fmt_c03(` ?
+//@   sub R11 `.unwrap_or_else(|_| DltChar4::from_buf(b"A99A"))` => `.vx_or_fallback()` ?
+//@   sub R11 `.unwrap_or_else(|_| DltChar4::from_buf(b"C99A"))` => `.vx_or_fallback()` ?
+//@   sub R12 `HashMap::new()` => `VxCtidMapC::new()` ?
+//@   spec
+//@|    requires
+//@|        maps_wf(old(vx_self).apid_maps.m()), maps_small(old(vx_self).apid_maps.m()),
+//@|    ensures
+//@|        maps_wf(final(vx_self).apid_maps.m()), // O:anon.ac.wf
+//@|        maps_stable(old(vx_self).apid_maps.m(), final(vx_self).apid_maps.m()), // O:anon.ac.stable (APID and CTID pseudonyms once given never change)
+//@|        same_but_ids(*old(msg), *final(msg)), // O:anon.ac.frame (times, ECU, payload, lifecycle and the rest of the extended header untouched)
+//@|        old(msg).extended_header is Some ==> ({
+//@|            let e = old(msg).ecu; let a = old(msg).extended_header->Some_0.apid; let c = old(msg).extended_header->Some_0.ctid; let mm = final(vx_self).apid_maps.m();
+//@|            mm.dom().contains(e) && mm[e].dom().contains(a) && mm[e][a].1.dom().contains(c)
+//@|            && final(msg).extended_header->Some_0.apid == mm[e][a].0 && final(msg).extended_header->Some_0.ctid == mm[e][a].1[c]
+//@|        }), // O:anon.ac.function (the pseudonyms written into the message are the ones recorded for its ECU / APID / CTID: equal ids, equal pseudonyms)
+//@|        old(msg).extended_header is None ==> final(vx_self).apid_maps.m() == old(vx_self).apid_maps.m(), // O:anon.ac.untouched
+//@   hint start
+//@|    let ghost mm0 = vx_self.apid_maps.m();
+//@   hint after `let apid_map = vx_self.apid_maps.vx_entry_or_default(`
+//@|    let ghost am0 = apid_map.m();
+//@|    let ghost a = *cur_apid;
+//@|    proof { lemma_ecu_wf_empty(); assert(ecu_wf(am0)); assert(am0.dom().len() < 0x1_0000_0000); assert(apid_proj(am0).dom() =~= am0.dom()); }
+//@   hint before `let apid_data = apid_map.get_mut(cur_apid).unwrap();`
+//@|    let ghost am1 = apid_map.m();
+//@|    proof {
+//@|        if !am0.dom().contains(a) {
+//@|            lemma_pm_insert(0x41, apid_proj(am0), a);
+//@|            if am1.dom().contains(a) && am1[a].1 =~= Map::<DltChar4, DltChar4>::empty() && am1 == am0.insert(a, am1[a]) && am1[a].0 == spec_pseudo(0x41, (am0.dom().len() + 1) as int) {
+//@|                assert(apid_proj(am1) =~= apid_proj(am0).insert(a, spec_pseudo(0x41, (am0.dom().len() + 1) as int)));
+//@|                assert(am1.dom() =~= am0.dom().insert(a));
+//@|            }
+//@|        }
+//@|        assert(am1.dom().contains(a) ==> pm_wf(0x43, am1[a].1));
+//@|    }
+//@   hint before `if let Some(extended_header) = msg.extended_header.as_mut() {`
+//@|    proof {
+//@|        let cm0 = am1[a].1;
+//@|        let c = *cur_ctid;
+//@|        if !cm0.dom().contains(c) { lemma_pm_insert(0x43, cm0, c); }
+//@|        let amf = am1.insert(a, dv(*apid_data));
+//@|        if dv(*apid_data).0 == am1[a].0 { assert(apid_proj(amf) =~= apid_proj(am1)); assert(amf.dom() =~= am1.dom()); }
+//@|    }
+//@ end
+
 fn main() {}
 } // verus!
